@@ -127,6 +127,14 @@ impl<T: Clone + Hash, S: Clone + BuildHasher> Clone for HashSet<T, S> {
     }
 }
 
+#[cfg(feature = "verif-hooks")]
+impl<T, S> HashSet<T, S> {
+    /// Verification hook: physical dump of the backing tables.
+    pub fn verif_dump(&self, mut id: impl FnMut(&T) -> u64) -> crate::verif::Dump {
+        self.map.verif_dump(|k, _| id(k))
+    }
+}
+
 #[cfg(feature = "ahash")]
 impl<T> HashSet<T, DefaultHashBuilder> {
     /// Creates an empty `HashSet`.
